@@ -45,8 +45,6 @@ func c17R5(h H) {
 						}
 						return aint(-1), true
 					}
-				case strings.HasSuffix(callee, "limits.SortPathLimits"):
-					return atuple{}, true // ordering is R1's matter
 				}
 				return nil, false
 			}
